@@ -42,7 +42,7 @@ Whenever both runs succeed they return the same cells in the same order;
 every level other than `l` carries the identical dict (assignment,
 probabilities, correlation, runner-ups, `directly_assigned = True`); run B has
 no level `l`; in run A level `l` is the copy of level `cl` whose assignment is
-the parent (`child_to_parent` of the tree as stored) of the assignment at
+the parent (`child_to_parent` of the stored tree) of the assignment at
 `cl`, without runner-ups and with `directly_assigned = False`. -/
 theorem drop_eq {κ} (t0 t' : RawTree) (cfg : Config) (vote : Oracle κ) (l cl : Level)
     (pre post : List Level) (ids : List CellId) (cells : List κ) (order : List Nat)
@@ -62,7 +62,7 @@ theorem drop_eq {κ} (t0 t' : RawTree) (cfg : Config) (vote : Oracle κ) (l cl :
       (∀ l', l' ≠ l → a.levels.lookup l' = b.levels.lookup l') ∧
       b.levels.lookup l = none ∧
       ∃ ec pn, b.levels.lookup cl = some ec ∧
-        t0.dropCells.childToParent cl ec.assignment = some pn ∧
+        t0.childToParent cl ec.assignment = some pn ∧
         a.levels.lookup l = some (inferred ec pn) := by
   have hnd0 := wfb_nodup_hierarchy hwf0
   have hwf := wfb_dropLevel hwf0 hdrop hs
@@ -161,7 +161,7 @@ theorem drop_eq {κ} (t0 t' : RawTree) (cfg : Config) (vote : Oracle κ) (l cl :
       have := hkeep cl eb hbc
       rw [hec] at this
       cases this
-      exact ⟨ec, pn, rfl, hq, hpe⟩
+      exact ⟨ec, pn, rfl, by rw [← childToParent_dropCells hnd0]; exact hq, hpe⟩
 
 /-- the example taxonomy without its middle level -/
 def exDropped : RawTree :=
@@ -177,7 +177,7 @@ example : ∀ outA outB,
       (∀ l', l' ≠ 1 → a.levels.lookup l' = b.levels.lookup l') ∧
       b.levels.lookup 1 = none ∧
       ∃ ec pn, b.levels.lookup 2 = some ec ∧
-        exTree.dropCells.childToParent 2 ec.assignment = some pn ∧
+        exTree.childToParent 2 ec.assignment = some pn ∧
         a.levels.lookup 1 = some (inferred ec pn) :=
   fun outA outB hA hB =>
     drop_eq exTree exDropped { chunkSize := 2, nProc := 2 } exVote 1 2 [0] [] [7, 3, 9] [0, 1, 2]
@@ -218,7 +218,7 @@ theorem flatten_eq {κ} (t0 : RawTree) (cfg : Config) (vote : Oracle κ) (ll : L
       a.levels.lookup ll = b.levels.lookup ll ∧ (b.levels.lookup ll).isSome ∧
       ∀ cp ∈ pairsOf t0.hierarchy.reverse,
         ∃ ec pn, a.levels.lookup cp.1 = some ec ∧
-          t0.dropCells.childToParent cp.1 ec.assignment = some pn ∧
+          t0.childToParent cp.1 ec.assignment = some pn ∧
           a.levels.lookup cp.2 = some (inferred ec pn) := by
   have hnd0 := wfb_nodup_hierarchy hwf0
   have hwf := wfb_flatten hwf0 hleaf
@@ -260,7 +260,9 @@ theorem flatten_eq {κ} (t0 : RawTree) (cfg : Config) (vote : Oracle κ) (ll : L
     | none => rw [hb'] at hll; cases hll
     | some e => exact hkeep ll e hb'
   · intro cp hm
-    apply hinf cp hm
+    suffices hnone : b.levels.lookup cp.2 = none by
+      obtain ⟨ec, pn, h1, h2, h3⟩ := hinf cp hm hnone
+      exact ⟨ec, pn, h1, by rw [← childToParent_dropCells hnd0]; exact h2, h3⟩
     apply lookup_none_of_not_keys
     rw [hkeys]
     simp only [List.mem_singleton]
@@ -288,7 +290,7 @@ example : ∀ outA outB,
       a.levels.lookup 2 = b.levels.lookup 2 ∧ (b.levels.lookup 2).isSome ∧
       ∀ cp ∈ pairsOf exTree.hierarchy.reverse,
         ∃ ec pn, a.levels.lookup cp.1 = some ec ∧
-          exTree.dropCells.childToParent cp.1 ec.assignment = some pn ∧
+          exTree.childToParent cp.1 ec.assignment = some pn ∧
           a.levels.lookup cp.2 = some (inferred ec pn) :=
   fun outA outB hA hB =>
     flatten_eq exTree { chunkSize := 2, nProc := 2 } exVote 2 [7, 3, 9] [0, 1, 2] [1, 0]
